@@ -37,16 +37,17 @@ import (
 type outcome struct {
 	cur atomic.Value // string: stage being executed (read by the watchdog)
 
-	reached    []string
-	rejectedAt string
-	err        error
-	panicStage string
-	panicMsg   string
-	panicFn    string
-	stack      string
-	nilResult  string // stage that returned (nil result, nil error)
-	route      string // "real": the real blocks()/processRange ran; "restated": tier1 chain with stub callbacks
-	sanitized  bool   // a store URL of the tier2 request was replaced by an in-memory one
+	reached        []string
+	rejectedAt     string
+	err            error
+	panicStage     string
+	panicMsg       string
+	panicFn        string
+	stack          string
+	nilResult      string      // stage that returned (nil result, nil error)
+	clientWentAway atomic.Bool // the request context was cancelled while the request was still running
+	route          string      // "real": the real blocks()/processRange ran; "restated": tier1 chain with stub callbacks
+	sanitized      bool        // a store URL of the tier2 request was replaced by an in-memory one
 
 	memStage  string // stage with the largest heap growth
 	memGrowth int64
